@@ -503,7 +503,7 @@ func (r *runner) run(s *structSpec, sc *scenario) (out outcome) {
 				for src := srcFlag; src <= srcFlagDefault; src++ {
 					if reflect.DeepEqual(g, val(j, src)) || reflect.DeepEqual(g, value(h.Kind, src, j, false, 0)) {
 						class = "other-field"
-						if sc.EnvNames[j] == sc.EnvNames[i] {
+						if strings.EqualFold(h.pathTags(), f.pathTags()) {
 							class = "sibling"
 						}
 						break search
